@@ -44,6 +44,46 @@ Fixpoint hub_put_from (idx : nat) (s : hub_state) (src : Z) : list (nat * bool) 
 
 Definition hub_put (s : hub_state) (src : Z) : list (nat * bool) := hub_put_from 0 s src.
 
+(* A hub in use: endpoints are attached with add_endpoint() between packets, and an attached
+   endpoint's element_id attribute may be reassigned.  Hub.put scans self.endpoints as they are at
+   that moment: the events of the k-th send are those of hub_put on the population so far. *)
+Inductive hub_act :=
+| HAttach (e : hub_ep)                 (* hub.add_endpoint(endpoint, port) *)
+| HSend (src : Z)                      (* hub.put(packet) with packet.src = src *)
+| HRename (idx : nat) (id : Z).        (* endpoints[idx].element_id = id *)
+
+Fixpoint hub_rename (s : hub_state) (idx : nat) (id : Z) : hub_state :=
+  match s, idx with
+  | [], _ => []
+  | e :: t, O => {| ep_id := id; ep_port := ep_port e |} :: t
+  | e :: t, S i => e :: hub_rename t i id
+  end.
+
+Definition hub_step (s : hub_state) (a : hub_act) : hub_state :=
+  match a with
+  | HAttach e => hub_add s e
+  | HSend _ => s
+  | HRename i id => hub_rename s i id
+  end.
+
+(* the population after a sequence of actions *)
+Definition hub_after (s : hub_state) (acts : list hub_act) : hub_state := fold_left hub_step acts s.
+
+(* the events of every send, in order *)
+Fixpoint hub_run (s : hub_state) (acts : list hub_act) : list (list (nat * bool)) :=
+  match acts with
+  | [] => []
+  | HSend src :: t => hub_put s src :: hub_run s t
+  | a :: t => hub_run (hub_step s a) t
+  end.
+
+Fixpoint count_sends (acts : list hub_act) : nat :=
+  match acts with
+  | [] => O
+  | HSend _ :: t => S (count_sends t)
+  | _ :: t => count_sends t
+  end.
+
 (* ---------------------------------------------------------------------------------------------- *)
 (* Packets as objects.  Header fields are the scalar attributes of Packet; perhop_time and
    priorities are references to dict objects (copy.copy is shallow: the reference is copied). *)
